@@ -49,7 +49,8 @@ CLASS_FLOORS = {"no_solution_game": 0.1, "dead>=2": 0.1}
 @st.composite
 def cases(draw, max_inner=10):
     g = draw(games.stopping_games(min_inner=1, max_inner=max_inner, max_sinks=3, zero_edges=True))
-    route = draw(st.sampled_from(("prune", "prune", "no_prune", "batch", "batch_twice", "again_pp", "again_pn", "again_np")))
+    route = draw(st.sampled_from(("prune", "prune", "no_prune", "batch", "batch_twice", "again_pp", "again_pn", "again_np",
+                                   "sib_prune", "sib_no_prune")))
     return dict(game=g, route=route)
 
 
@@ -79,7 +80,7 @@ def planted():
              final_states=[0, 0]),
     ]
     for g in gs:
-        for route in ("prune", "no_prune", "batch", "batch_twice", "again_pn", "again_pp"):
+        for route in ("prune", "no_prune", "batch", "batch_twice", "again_pn", "again_pp", "sib_prune", "sib_no_prune"):
             yield dict(game=g, route=route)
 
 
@@ -294,6 +295,20 @@ def check_case(case):
             v.fail("unexpected-error", f"{label}: {type(exc).__name__}: {str(exc)[:160]}",
                    sig=f"{type(exc).__name__}")
 
+    if route.startswith("sib_"):
+        # a sweep over probabilities on one graph: two siblings of the game (same owners, successors and final states,
+        # every chance state's mass on its first / on its last entry, the other entries listed with probability 0) are
+        # solved in this process first; whatever they do is not examined.  Then the game itself is solved and judged.
+        from harness.sut import solve as sut_solve
+        v.cls("after_zeroed_siblings")
+        for pick, sib_prune in ((0, True), (-1, False)):
+            sib = copy_game(game)
+            for s_, lst in enumerate(sib["transition_list"]):
+                if sib["players"][s_] == PR and len(lst) >= 2:
+                    k = pick % len(lst)
+                    sib["transition_list"][s_] = [(1.0 if i == k else 0.0, t) for i, (_, t) in enumerate(lst)]
+            sut_solve(sib, sib_prune, sweeps=3000, via_file=False)
+        route = route[len("sib_"):]
     if route.startswith("again_"):
         # the same description (the very same dict and lists) is solved twice; each solve must end properly
         from harness.sut import solve as sut_solve
